@@ -1,5 +1,6 @@
 """property id -> harness modules (each exposes cases(tier) -> [Case])"""
 REGISTRY = {
+    "C06": {"modules": ["harness.C06_counts"], "uncovered": []},
     "C16": {"modules": ["harness.C16_lz"], "uncovered": ["murmurhash bit arithmetic (hash modelled as an arbitrary function; BV lemma planned)", "base_dictionary together with hashing", "the relabelling clause under injective hashing"]},
     "C19": {"modules": ["harness.C19_sliding"], "uncovered": ["window_sample='random'", "callable / changepoint function kernels", "position_velocity and gaussian_weight kernels", "index lists that are not strictly increasing (a full-length list is ignored by sliding_windows: `sample.shape[0] < width`)"]},
     "C09": {"modules": ["harness.C09_bpe"], "uncovered": []},
